@@ -248,7 +248,7 @@ class CachedStore(Entity):
 
     def invalidate_all(self) -> None:
         """Clear the entire cache."""
-        for key in self._dirty_keys:
+        for key in sorted(self._dirty_keys):
             if key in self._cache:
                 # Write-back: the cache holds the only copy of this write
                 self._backing_store.put_sync(key, self._cache[key])
@@ -269,7 +269,8 @@ class CachedStore(Entity):
             Number of entries flushed.
         """
         flushed = 0
-        for key in list(self._dirty_keys):
+        # sorted(): set enumeration order of str keys varies with PYTHONHASHSEED
+        for key in sorted(self._dirty_keys):
             if key in self._cache:
                 value = self._cache[key]
                 yield from self._backing_store.put(key, value)
@@ -334,7 +335,7 @@ class CachedStore(Entity):
         Returns:
             List of dirty keys.
         """
-        return list(self._dirty_keys)
+        return sorted(self._dirty_keys)
 
     def handle_event(self, event: Event) -> None:
         """CachedStore can handle events for cache operations."""
